@@ -43,6 +43,10 @@ Definition fwd_code (w : list N) : N := code (map nt4 w).
 Definition rev_code (w : list N) : N := code (map (fun b => 3 - nt4 b) (rev w)).
 Definition emit (w : list N) : list (N * N) :=
   if forallb clean w then [(fwd_code w, rev_code w)] else [].
-Definition spec_kmers (k : nat) (s : list N) : list (N * N) :=
-  flat_map (fun p => emit (window s p k)) (seq 0 (length s + 1 - k)).
+(* one item for each start position 0 .. |s|-k whose window is clean; written by walking the suffixes so that the
+   executable spec is linear in |s| (Proof/KmerProof.v spec_kmers_windows: this is
+   flat_map (fun p => emit (window s p k)) (seq 0 (length s + 1 - k))) *)
+Fixpoint windows_go (k n : nat) (s : list N) : list (N * N) :=
+  match n with O => [] | S n' => emit (firstn k s) ++ windows_go k n' (tl s) end.
+Definition spec_kmers (k : nat) (s : list N) : list (N * N) := windows_go k (length s + 1 - k) s.
 End Kmer.
